@@ -78,6 +78,8 @@ def run(tier, seed, replay=None):
     rep = Report("C05", tier, seed)
     rng = Rng(seed)
     proof_stage(rep, "C05")
+    # tie by translation (T5): merge_all / concat_all / flatten / flat_map / concat_map and the _threads forms build one operator with the limit the model assumes
+    proof_stage(rep, "C05src", limit=400)
     if not build_stage(rep):
         return rep.finish()
     corpus = []
